@@ -23,6 +23,28 @@ def timer_coroutines(fx):
     return out
 
 
+
+def check_timers_own_nothing(ctx, fx, cfg, RULE="R05.3"):
+    """timer futures capture nothing strong and hold nothing strong while they sleep"""
+    if cfg != "bare":
+        timers = timer_coroutines(fx)
+        ctx.floor(RULE, "timer coroutines in " + cfg, len(timers), 2)  # at least one periodic and one one-shot body (APIs may share bodies)
+        for f in timers:
+            co = fx.coroutines.get(f["def"])
+            inst = "%s@%s" % (f["def"].split("::")[-2], cfg)
+            if not ctx.require(co is not None and "suspensions" in co, RULE, inst, "coroutine layout missing", fn=f["def"]):
+                continue
+            bad = [("captures", c, a["ty"]) for c, p, a in own.keepalive_atoms(co["upvar_atoms"])]
+            n_sleep = 0
+            for s in co["suspensions"]:
+                live_tys = [co["saved"][i] for i in s["live"]]
+                if any("SpawnFutures::sleep" in t for t in live_tys):
+                    n_sleep += 1
+                    for c, p, a in own.keepalive_atoms(s["atoms"]):
+                        bad.append(("sleep@" + s["loc"], c, a["ty"]))
+            ctx.require(not bad, RULE, inst, "a timer task holds a strong handle while it sleeps: %s" % bad[:3], fn=f["def"], site=f["loc"], detail={"sleep_suspensions": n_sleep})
+            ctx.require(n_sleep >= 1, RULE, inst + ":sleep-found", "no suspension point holding the sleep future found", fn=f["def"], site=f["loc"])
+
 def run(ctx):
     ctx.explanation = EXPL
     ctx.assumptions = ["mpsc receiver yields None iff all senders are gone and the queue is empty", "Arc/Weak semantics", "user code storing its own Addr inside the actor is outside the property (documented leak potential)"]
@@ -66,25 +88,12 @@ def check_cfg(ctx, fx, cfg):
         has_rx = any(own.classify(a)[0] == "receiver" and not own.existential(own.classify(a)[1]) for a in co["upvar_atoms"])
         ctx.require(not bad, "R05.2", "%s-loop@%s" % (kind, cfg), "the event loop future keeps its own actor alive: %s" % bad[:3], fn=f["def"], site=f["loc"], detail={"suspension_points": len(co["suspensions"])})
         ctx.require(has_rx, "R05.2", "%s-loop-owns-receiver@%s" % (kind, cfg), "the event loop future does not own the mailbox receiver", fn=f["def"], site=f["loc"])
-    # R05.3 timers
-    if cfg != "bare":
-        timers = timer_coroutines(fx)
-        ctx.floor("R05.3", "timer coroutines in " + cfg, len(timers), 2)  # at least one periodic and one one-shot body (APIs may share bodies)
-        for f in timers:
-            co = fx.coroutines.get(f["def"])
-            inst = "%s@%s" % (f["def"].split("::")[-2], cfg)
-            if not ctx.require(co is not None and "suspensions" in co, "R05.3", inst, "coroutine layout missing", fn=f["def"]):
-                continue
-            bad = [("captures", c, a["ty"]) for c, p, a in own.keepalive_atoms(co["upvar_atoms"])]
-            n_sleep = 0
-            for s in co["suspensions"]:
-                live_tys = [co["saved"][i] for i in s["live"]]
-                if any("SpawnFutures::sleep" in t for t in live_tys):
-                    n_sleep += 1
-                    for c, p, a in own.keepalive_atoms(s["atoms"]):
-                        bad.append(("sleep@" + s["loc"], c, a["ty"]))
-            ctx.require(not bad, "R05.3", inst, "a timer task holds a strong handle while it sleeps: %s" % bad[:3], fn=f["def"], site=f["loc"], detail={"sleep_suspensions": n_sleep})
-            ctx.require(n_sleep >= 1, "R05.3", inst + ":sleep-found", "no suspension point holding the sleep future found", fn=f["def"], site=f["loc"])
+    check_timers_own_nothing(ctx, fx, cfg)
+    # R05.12 a parent's child list keeps its children alive for as long as the parent lives: nothing empties or replaces the
+    # table (shared with C16)
+    if cfg == "tokio":
+        from props import c16 as _c16
+        _c16.check_child_table_access(ctx, fx, "R05.12")
     # R05.4 weak kinds
     for k in own.WEAK_KINDS:
         o = fx.owns_of(k, "adt")
